@@ -15,6 +15,23 @@ EXPLANATION = ("The specialisation table of the `contains` compiler is extracted
 CMP = common.CMP_COMPILE
 
 
+def _empty_pol(site, pat_names):
+    import sem
+    for a_, pol in sem.literals(site.pc)[0]:
+        n_ = sem.peel(a_.node) if a_.kind == "call" and a_.node is not None else {}
+        if n_.get("k") == "MethodCall" and n_["m"] == "is_empty" and local_name(n_["recv"]) in pat_names:
+            return pol
+    return None
+
+
+def _one_elem_excluded(site):
+    import sem
+    for a_, pol in sem.literals(site.pc)[0]:
+        if a_.kind == "is" and not pol and any("slice" in str(alt) for alt in a_.alts):
+            return True
+    return False
+
+
 def run(F, R, tier):
     E = F.engine
     h = E.hir(CMP)
@@ -160,23 +177,27 @@ def run(F, R, tier):
         ok = ok and lit_value(fl.get("start", {})) == 1 and end.get("k") == "MethodCall" and end["m"] == "len" and local_name(end["recv"]) in pat_names
         R.check(ok, rule, CMP, "anchor drawn from 1..bytes.len() (exclusive upper bound)",
                 "sliceslice requires position < needle length; an inclusive range can pick len", c["sp"])
-        pre = preceding_stmts(body, c) or []
-        short = 0
-        for st2 in pre:
-            for i in exprs(st2, "If", into_closures=False):
-                if list(exprs(i["then"], "Ret")):
-                    short += 1
-        R.check(short >= 2, rule, CMP, "drawn only after the empty and one-byte patterns returned (len >= 2, range non-empty)", str(short), c["sp"])
+        # on the way to the draw both short patterns have been excluded (is_empty() false, not a one-element slice)
+        xs = [st_ for n_, st_ in all_sites if n_ is c]
+        short = bool(xs) and all(_empty_pol(x, pat_names) is False and _one_elem_excluded(x) for x in xs)
+        R.check(short, rule, CMP, "drawn only after the empty and one-byte patterns returned (len >= 2, range non-empty)", str(short), c["sp"])
     # --- shortcuts
     rule = "R10-arms"
     empty = one = False
     for i in exprs(body, "If", into_closures=False):
         c = strip(i["cond"])
-        if c.get("k") == "MethodCall" and c["m"] == "is_empty" and local_name(c["recv"]) in pat_names:
-            empty = any(last_seg(def_path(p) or "") == "EmptySearcher" for p in exprs(i["then"], "Path")) and bool(list(exprs(i["then"], "Ret")))
+        pass
         if c.get("k") == "LetExpr" and c["pat"].get("k") == "PSlice" and len(c["pat"].get("before", [])) == 1 and "mid" not in c["pat"] and not c["pat"].get("after"):
             nm = pat_bindings(c["pat"])
             one = any(norm(x.get("callee", "")).endswith("MemchrSearcher::new") and local_name(x["args"][0]) in nm for x in exprs(i["then"], "Call"))
+    # EmptySearcher is what is compiled exactly when the pattern is empty: its construction sits under `is_empty()`, every
+    # other searcher under its negation
+    es = [st_ for n_, st_ in all_sites if n_.get("k") == "Path" and last_seg(def_path(n_) or "") == "EmptySearcher" and
+          _empty_pol(st_, pat_names) is not None]
+    others = [st_ for n_, st_ in all_sites if n_.get("k") == "Call" and
+              last_seg(norm(n_.get("callee", ""))) in ("with_position", "ArraySearcher", "BoxSearcher", "MemmemSearcher") or
+              (n_.get("k") == "Call" and norm(n_.get("callee", "")).endswith("MemchrSearcher::new"))]
+    empty = bool(es) and all(_empty_pol(x, pat_names) is True for x in es) and bool(others) and all(_empty_pol(x, pat_names) is False for x in others)
     R.check(empty, rule, CMP, "empty pattern -> EmptySearcher", where=h["span"])
     R.check(one, rule, CMP, "one-byte pattern -> MemchrSearcher::new(that byte)", where=h["span"])
     he = E.hirs(r"^<searcher::EmptySearcher as ast::index_expr::Compare<U>>::compare$")
